@@ -188,6 +188,56 @@ Proof.
 Qed.
 
 (* ---- the decompressor pool as a state machine ---- *)
+(* The encoding header of the response a handler writes: the response algorithm unless it is
+   identity. When the request's compression is refused negotiateCompression reports identity
+   for both directions (the refusal is an uncompressed response): no header. *)
+Definition response_encoding_header (n : negotiated) : option bytes :=
+  match n with
+  | NegOk _ resp => if bs_eqb resp compression_identity then None else Some resp
+  | NegUnimplemented _ => None
+  end.
+
+Lemma fields_go_nonempty : forall s cur x, In x (fields_go s cur) -> x <> [] \/ (x = rev cur /\ cur <> []).
+Proof.
+  induction s as [|c r IH]; intros cur x Hin; cbn [fields_go] in Hin.
+  - destruct cur as [|a cur']; [destruct Hin|]. destruct Hin as [Hx|[]]. right. split; [symmetry; exact Hx | discriminate].
+  - destruct (is_comma_or_space c).
+    + destruct cur as [|a cur'].
+      * destruct (IH [] x Hin) as [H|[_ H]]; [left; exact H | exfalso; apply H; reflexivity].
+      * destruct Hin as [Hx|Hin]; [right; split; [symmetry; exact Hx | discriminate]|].
+        destruct (IH [] x Hin) as [H|[_ H]]; [left; exact H | exfalso; apply H; reflexivity].
+    + destruct (IH (c :: cur) x Hin) as [H|[Hx _]]; [left; exact H|].
+      left. subst x. cbn [rev]. intro E. apply app_eq_nil in E. destruct E as [_ E]. discriminate.
+Qed.
+
+Lemma fields_nonempty : forall s x, In x (fields s) -> x <> [].
+Proof.
+  intros s x Hin. destruct (fields_go_nonempty s [] x Hin) as [H|[_ H]]; [exact H | exfalso; apply H; reflexivity].
+Qed.
+
+(* C05 / C07: whatever the request's headers say, the encoding header of the response - when
+   there is one - holds a non-empty name *)
+Lemma response_encoding_header_nonempty_lemma : forall registered sent accept e,
+  response_encoding_header (negotiate registered sent accept) = Some e -> e <> [].
+Proof.
+  intros registered sent accept e. unfold negotiate.
+  destruct (negb (is_nil_b sent) && negb (bs_eqb sent compression_identity) && negb (contains registered sent)) eqn:U;
+    cbn [response_encoding_header]; [discriminate|].
+  destruct (negb (is_nil_b sent) && negb (bs_eqb sent compression_identity)) eqn:S1.
+  - (* the request names an algorithm: it is the response's too *)
+    assert (bs_eqb sent compression_identity = false) as NI.
+    { destruct (bs_eqb sent compression_identity); [rewrite andb_false_r in S1; discriminate | reflexivity]. }
+    rewrite NI. cbn [andb]. rewrite NI. intro H. inversion H; subst e.
+    destruct sent; [cbn in S1; discriminate | discriminate].
+  - rewrite bs_eqb_refl. cbn [andb].
+    destruct (negb (is_nil_b accept)); cbn [andb].
+    + destruct (first_supported registered (fields accept)) as [n|] eqn:F.
+      * destruct (bs_eqb n compression_identity); [discriminate|]. intro H. inversion H; subst e.
+        destruct (first_supported_sound _ _ _ F) as (Hin & _). exact (fields_nonempty _ _ Hin).
+      * rewrite bs_eqb_refl. discriminate.
+    + rewrite bs_eqb_refl. discriminate.
+Qed.
+
 Section Pool.
 Variable D : Type.                       (* a Decompressor object (e.g. *gzip.Reader) *)
 Variable reset : D -> bytes -> D.        (* Reset(source) *)
